@@ -4,7 +4,7 @@ that depends on it becomes a broken obligation; the reason is kept in coq/Gen/_s
 import importlib, json, os, sys, traceback
 from .pyco import TErr
 
-GENS = ['gen_sched', 'gen_optim', 'gen_bmm', 'gen_engine', 'gen_ghost', 'gen_sampler', 'gen_calib', 'gen_rdp', 'gen_prv', 'gen_adaclip', 'gen_ckpt', 'gen_dist', 'gen_wrap', 'gen_validators', 'gen_rnn', 'gen_mha']
+GENS = ['gen_sched', 'gen_optim', 'gen_bmm', 'gen_engine', 'gen_ghost', 'gen_sampler', 'gen_calib', 'gen_rdp', 'gen_prv', 'gen_adaclip', 'gen_ckpt', 'gen_dist', 'gen_wrap', 'gen_validators', 'gen_rnn', 'gen_mha', 'gen_gradsample']
 ROOT = os.path.dirname(os.path.dirname(os.path.dirname(os.path.abspath(__file__))))
 
 
